@@ -182,19 +182,19 @@ func NewTrie(db util.NodeDB, version int64, root util.Key) *util.MerklePatriciaT
 
 // Seeds are concrete contents inserted through the public API before the symbolic ops.
 var Seeds = [][]string{
-	0: {},
-	1: {"a0"},
-	2: {"a0", "a0b1"},       // ext(2) -> branch with value
-	3: {"a0", "a1", "b0"},   // root branch, value-less inner branch
-	4: {"aa00", "aa0a", "a0"}, // root ext(1) -> branch -> ext(1) -> branch
-	5: {"0a", "0a0a"},
-	6: {"", "a0"},           // root branch carrying a value
-	7: {"00", "0a", "a0", "aa"},
-	8: {"aaaa", "aa00"},     // ext(2) -> branch of leaves
-	9: {"a000", "a0aa", "aa"}, // ext(1) -> branch{0: ext(1)->branch, a: leaf}
-	10: {"0000"},              // single long leaf
-	11: {"00aa", "aa00"},      // root branch of two long leaves
-	12: {"00", "a0", "90"},    // root branch; the third leaf went into an empty slot; slot f is still empty
+	0:  {},
+	1:  {"a0"},
+	2:  {"a0", "a0b1"},         // ext(2) -> branch with value
+	3:  {"a0", "a1", "b0"},     // root branch, value-less inner branch
+	4:  {"aa00", "aa0a", "a0"}, // root ext(1) -> branch -> ext(1) -> branch
+	5:  {"0a", "0a0a"},
+	6:  {"", "a0"}, // root branch carrying a value
+	7:  {"00", "0a", "a0", "aa"},
+	8:  {"aaaa", "aa00"},       // ext(2) -> branch of leaves
+	9:  {"a000", "a0aa", "aa"}, // ext(1) -> branch{0: ext(1)->branch, a: leaf}
+	10: {"0000"},               // single long leaf
+	11: {"00aa", "aa00"},       // root branch of two long leaves
+	12: {"00", "a0", "90"},     // root branch; the third leaf went into an empty slot; slot f is still empty
 }
 
 // ApplySeed inserts seed number i (concrete values) into t and the reference.
